@@ -107,4 +107,9 @@ CLAIMED["C11"] = {
     "note": SITE_NOTE + " The property is about evaluation; it is decided on the syntax of the output, where JavaScript fixes the order. Partial: position of a repeated class/style/listener under mergeProps by oracle only. Known finding vslots_on_element_host_dropped.",
     "technique": "Coq proofs (list induction; structural) + once/eager/lazy occurrence oracle on real outputs",
 }
-NOT_CLAIMED = {p: UNDER for p in ["C06", "C10"]}
+CLAIMED["C10"] = {
+    "text": "Theorems C10_reads_only_five_fields / C10_reads_stay_equal (relational induction over the nested AST): the lowering of an element of any size, in any two visitor states that agree on the pragma, the pending assignment target, the slot-flag stack and the two counters that name temporaries, is the same expression - helper imports, pending declarations, diagnostics, flags and type registries left behind by other code cannot influence it; C10_attributes_stateless. The FULL statement is decided on paired REAL runs: every generated (prefix, JSX statement, suffix) triple (assignments to same-named variables, functions/arrows/classes/loops with other JSX needing temporaries and helpers, fragments, user imports from 'vue', same tag names with another binding status) against the statement alone, comparing the statement's lowering with identifiers named by what they denote (Spec/Context.v).",
+    "note": "Trusted: Coq kernel; Spec/Context.v's naming (vue import -> imported name; generated temporary -> order of first occurrence; other identifiers -> name + order of scope); hand model tied differentially. The step from the theorem to alone-vs-in-context (the naming counters differ, renaming temporaries consistently) is covered by the paired runs only. Pragma annotations are module-wide (C15) and not used as distractors.",
+    "technique": "Coq proof (binary/relational induction over the nested AST: non-interference of the unread state) + paired-run oracle on real outputs",
+}
+NOT_CLAIMED = {p: UNDER for p in ["C06"]}
